@@ -1170,6 +1170,12 @@ def check_c08(prop, tier, seed, devices):
                 prog = [copy.deepcopy(opener), instr("ret"), line("if", e=lit(1), pfx=pfx), instr("nop"), line("elif", e=copy.deepcopy(cond), pfx=pfx), instr("ret"),
                         line("endif", pfx=pfx), line("endif", pfx=pfx), instr("sleep")]
                 cases.append(Case(prog, tag="too-deep-conditional"))
+    # text that merely begins like a conditional directive is text
+    for junk in (".endif_x", ".else2", ".if2", "#endif9", ".elif_", ".ifdefx FLAG", ".endifs", ".iff 1"):
+        for outer in (0, 1):
+            prog = [line("if", e=lit(outer))] + ([line("garbage", text=junk)] if outer == 0 else []) + [instr("ldi", R(16), E(1)), line("else"), line("garbage", text=junk) if outer == 1 else instr("nop"),
+                    instr("ldi", R(16), E(2)), line("endif"), instr("ret")]
+            cases.append(Case(prog, tag="glued-word"))
     # a macro definition inside a branch that is not assembled: its lines are passed over like any others, the conditional
     # directives among them count, whatever follows the directive word
     for outer in (0, 1):
